@@ -11,6 +11,7 @@ var registry = map[string]core.Harness{
 	"C03": C03{},
 	"C01": C01{},
 	"C04": C04{},
+	"C05": C05{},
 	"C06": C06{},
 	"C07": C07{},
 	"C10": C10{},
